@@ -401,4 +401,30 @@ pub(crate) mod b {
         }
         println!("BOUNDED-CASES {}", n);
     }
+
+    /// S2 / C06 (bounded stand-in): is_collinear is exact for small triangles wherever they sit on the page
+    /// (the Kani obligation S2.is_collinear_exact covers the symbolic lattice near the origin)
+    #[test]
+    fn bounded_is_collinear_translated() {
+        // lattice points of a 1 x 1 cell box (quarter units), all triples; offsets up to (400, 200) cells
+        let pts: Vec<(i64, i64)> = (0..=4).flat_map(|x| (0..=8).step_by(2).map(move |y| (x, y))).collect();
+        let offsets: [(i64, i64); 8] = [(0, 0), (13, 7), (29, 0), (181, 90), (361, 0), (0, 181), (399, 199), (400, 200)];
+        let mut n = 0u64;
+        for (ox, oy) in offsets {
+            let p = |q: (i64, i64)| Point::new((q.0 + 4 * ox) as f32 * 0.25, (q.1 + 8 * oy) as f32 * 0.25);
+            for a in &pts {
+                for b in &pts {
+                    for c in &pts {
+                        let cross = (b.0 - a.0) * (c.1 - a.1) - (b.1 - a.1) * (c.0 - a.0);
+                        if crate::util::is_collinear(&p(*a), &p(*b), &p(*c)) != (cross == 0) {
+                            println!("BOUNDED-WITNESS is_collinear({:?},{:?},{:?}) at cell offset ({},{}) = {}, exact: {}", a, b, c, ox, oy, cross != 0, cross == 0);
+                            panic!("is_collinear is exact wherever the points sit");
+                        }
+                        n += 1;
+                    }
+                }
+            }
+        }
+        println!("BOUNDED-CASES {}", n);
+    }
 }
